@@ -88,8 +88,9 @@ def Data.strings : Data → List Str
 what came back is the echo of a prefix of the messages sent before it. -/
 def devUtf8 (d : Data) : Bool := d.strings.any (fun s => !validUTF8 s)
 
-/-- `Dev batch-dims-rederived`: a batch whose dimension list is not the sorted list of its tag keys
-(`GroupByNode` builds such a header with `SetTagsAndDimensions` when a dimension is named twice in `groupBy`).
+/-- A batch whose dimension list is not the sorted list of its tag keys — outside what the edge constructors and the
+nodes build (`GroupByNode` built such a header with `SetTagsAndDimensions` when a dimension was named twice in
+`groupBy`, until `fix:` a050cea: former finding batch-dims-rederived; today only a hand-made header is like this).
 Deviated output: the same batch with the dimensions re-derived from the tags and the group ID of those. -/
 def devDims : Data → Bool
   | .batch b _ => decide (b.dims ≠ sortedKeys b.tags)
@@ -99,7 +100,7 @@ def devDimsOut : Data → Data
   | .batch b pts => .batch { b with dims := sortedKeys b.tags, group := toGroupID b.name b.tags b.byName (sortedKeys b.tags) } pts
   | d => d
 
-/-- ECHO IDENTITY up to the recorded deviation `batch-dims-rederived` (equal to `echoIdentity` when no sent batch
+/-- ECHO IDENTITY up to re-derived batch dimensions (the former deviation `batch-dims-rederived`; equal to `echoIdentity` when no sent batch
 satisfies `devDims`). -/
 def echoIdentityUpToDims (sent received : List Data) : Bool := echoIdentity (sent.map devDimsOut) received
 
